@@ -196,7 +196,7 @@ worktree of /repo. Suffix Mnnnn: single-point mutants of the mutation sweep (`to
 and no test noticed, classified as violations and demonstrated by independent sub-agents.
 Every one was confirmed by me in its scratch worktree before being kept: demo passes on the clean tree, fails with the patch, full suite unchanged (219 passed / 44 failed)
 (for the django / starlette handlers, which cannot be run here, the demo drives the real handler through an in-memory stand-in of the framework).
-Suffix = round: A,B round 1 · C,D round 2 · E,F round 3 · G,H round 4 · I,J round 5 · K,L round 6 · N,O round 7.
+Suffix = round: A,B round 1 · C,D round 2 · E,F round 3 · G,H round 4 · I,J round 5 · K,L round 6 · N,O round 7 · P,Q (and two re-filed as R) round 8.
 `_residue/` holds confirmed violations the checks do not decide (third-party semantics).
 `first run` is the verdict of the checks as they were when the change arrived (before any strengthening for that round).
 `caught now by` lists, per property check, the rules that report the change on the current machinery (`tools_seeded.py readme`: each patch applied to a scratch copy of
